@@ -196,6 +196,15 @@ class SearchA(Problem):
             self.hh = [b"@@@ -1,9 -1,9 +1,9 @@@", b"@@@ -21,2 -21,2 +21,3 @@@ fn frag()"]
             self.alphabet = [(p + c, producers.hunk_line_kind(p + c, 2))
                              for c in contents for p in (b"  ", b"- ", b" -", b"--", b"+ ", b" +", b"++")]
+        elif variant == "diffu-exact":
+            # plain `diff -u`: hunk headers carry the true counts (they drive delta's decision
+            # whether a '--- x' line is a removed line or the next file's header)
+            self.np = 1
+            self.header = [b"--- a/f.txt\t2020-01-01 00:00:00.000000000 +0000",
+                           b"+++ b/f.txt\t2020-01-02 00:00:00.000000000 +0000"]
+            self.contents = contents
+            self.hh = None
+            self.alphabet = []
         elif variant == "conflict":
             self.np = 2
             self.header = [b"diff --cc f.txt", b"index 1111111,2222222..0000000",
@@ -220,6 +229,8 @@ class SearchA(Problem):
             return self._hunk_headers(0)
         if self.variant == "conflict" and stage != "hunk":
             return self._conflict_successors(ps)
+        if self.variant == "diffu-exact":
+            return self._exact_successors(ps)
         # stage == "hunk": a = hunk index, b = lines used
         out = []
         if self.variant == "conflict" and b < self.L:
@@ -229,6 +240,32 @@ class SearchA(Problem):
                 out.append((line, ("hunk", a, b + 1, 0), "hunk-" + kind))
         if b >= 1 and a + 1 < self.hunks:
             out.extend(self._hunk_headers(a + 1))
+        return out
+
+    def _exact_successors(self, ps):
+        # ps = ("hunk", hunk index, lines used, (old left, new left) | None)
+        stage, a, b, left = ps
+        out = []
+        if left is None or left == (0, 0):
+            if left is None or a + 1 < self.hunks:
+                idx = 0 if left is None else a + 1
+                for m in range(0, self.L + 1):
+                    for p in range(0, self.L + 1 - m):
+                        if m + p == 0:
+                            continue
+                        def rng(s_, c):
+                            return b"%d" % s_ if c == 1 else b"%d,%d" % (s_, c)
+                        hh = b"@@ -" + rng(1 + 10 * idx, m) + b" +" + rng(1 + 10 * idx, p) + b" @@"
+                        out.append((hh, ("hunk", idx, 0, (m, p)), "hunk-header"))
+            return out
+        m, p = left
+        for c in self.contents:
+            if m > 0 and p > 0:
+                out.append((b" " + c, ("hunk", a, b + 1, (m - 1, p - 1)), "hunk-zero"))
+            if m > 0:
+                out.append((b"-" + c, ("hunk", a, b + 1, (m - 1, p)), "hunk-minus"))
+            if p > 0:
+                out.append((b"+" + c, ("hunk", a, b + 1, (m, p - 1)), "hunk-plus"))
         return out
 
     def _conflict_successors(self, ps):
@@ -251,6 +288,8 @@ class SearchA(Problem):
         return out
 
     def _hunk_headers(self, idx):
+        if self.variant == "diffu-exact":
+            return self._exact_successors(("hunk", 0, 0, None))
         if self.variant == "diffu":
             # counts matter for plain diff -u (they drive the ambiguous '--- ' counter): offer
             # the maximal counts, under which every alphabet line is a hunk line
@@ -459,6 +498,7 @@ def plan(tier):
                 ("A", "combined", CONTENTS_QUICK[:3], 3, 1),
                 ("A", "diffu", CONTENTS_QUICK + [b"-- y"], 3, 1),
                 ("A", "conflict", [b"x", b""], 2, 1),
+                ("A", "diffu-exact", [b"x", b"-- y"], 3, 2),
                 ("B", 2, ["modified", "mode", "rename_change"], None, "diffu")]
     else:
         specs = [("A", "unified", CONTENTS_QUICK, 4, 1),
@@ -467,6 +507,7 @@ def plan(tier):
                 ("A", "combined", CONTENTS_QUICK, 3, 1),
                 ("A", "diffu", CONTENTS_FULL, 3, 1),
                 ("A", "conflict", [b"x", b"", b"\tt", b"\xc3\xa9\xe6\xbc\xa2"], 3, 1),
+                ("A", "diffu-exact", [b"x", b"-- y", b"++ y", b""], 4, 2),
                 ("B", 3, None, ["ctx", "minus", "minusplus"], "git"),
                 ("B", 2, ["modified"], None, "diffu")]
     for label, ov, k in configs:
